@@ -109,6 +109,12 @@ class C17(SmallSuite):
                 box = (lo, hi)
                 ops.append({"op": "setbounds", "lower": lo, "upper": hi})
                 n_bounds += 1
+            elif u < 0.885:
+                # a SetBounds whose upper argument is malformed (too few components / a scalar / 2-D) while the lower one is a
+                # good, different vector.  If the object accepts it, it has been configured with garbage and the run ends there;
+                # if it rejects it (raises), the box must still be the previous one - not a hybrid
+                lo, _hi = objectives.gen_box(rng, N)
+                ops.append({"op": "bad_setbounds", "lower": lo, "upper_kind": rng.choice(["short", "scalar", "2d"])})
             elif u < 0.90:
                 # a malformed inverse query (a point of the wrong length): whatever it does itself - raise or answer something -
                 # the queries that follow must not be affected by it
@@ -197,6 +203,19 @@ class C17(SmallSuite):
                     events.append("setbounds")
                     if q_before_bounds:
                         bounds_between = True
+                elif k == "bad_setbounds":
+                    rep.probes["malformed_setbounds"] += 1
+                    uk = op["upper_kind"]
+                    bad_hi = np.array([1e3] * max(0, N - 1), dtype=np.double) if uk == "short" else (np.double(1e3) if uk == "scalar" else np.full((N, 2), 1e3))
+                    try:
+                        ev.SetBounds(np.array(op["lower"], dtype=np.double), bad_hi)
+                        events.append("bad_setbounds accepted")
+                        rep.inconclusive["garbage_bounds_accepted"] += 1
+                        break       # configured with garbage: nothing that follows is described by the property
+                    except core.HarnessError:
+                        raise
+                    except Exception as e:
+                        events.append("bad_setbounds raised %s" % type(e).__name__)
                 elif k == "bad_inverse":
                     rep.probes["malformed_queries"] += 1
                     try:
@@ -403,8 +422,11 @@ class C15(SmallSuite):
                 if rng.random() < 0.08:
                     # a request with a non-finite coordinate in between (a caller's slip: the benchmark may raise or return
                     # nan/inf) - it must not change what the instance answers afterwards
-                    ops.append({"op": "evaluate_bad", "slot": s, "coord": rng.randrange(5), "value": rng.choice(["inf", "-inf", "nan"]),
+                    ops.append({"op": "evaluate_bad", "slot": s, "coord": rng.randrange(5), "value": rng.choice(["inf", "-inf", "nan", "short", "short"]),
                                 "pt": rng.randrange(len(pts[mk]))})
+                if rng.random() < 0.01:
+                    # a long series of evaluations at many distinct points on this instance (bounded per-instance caches wrap)
+                    ops.append({"op": "burn", "slot": s, "n": rng.randint(1100, 2500), "axis": rng.randrange(5)})
                 if rng.random() < 0.15:
                     o["int_if_integral"] = True     # coordinates that are whole numbers are passed as python/numpy ints
                 v = rng.random()
@@ -480,7 +502,10 @@ class C15(SmallSuite):
                         continue
                     mk = plan_slot_member(plan, op["slot"])
                     ptb = list(pts[mk][op["pt"]])
-                    ptb[op["coord"] % len(ptb)] = float(op["value"])
+                    if op["value"] == "short":
+                        ptb = ptb[:-1]          # one coordinate missing
+                    else:
+                        ptb[op["coord"] % len(ptb)] = float(op["value"])
                     rep.probes["non_finite_requests"] += 1
                     try:
                         prob.Calculate(Point(np.array(ptb, dtype=np.double), []), FunctionValue())
@@ -489,6 +514,23 @@ class C15(SmallSuite):
                         raise
                     except Exception as e:
                         events.append("evaluate_bad raised %s" % type(e).__name__)
+                elif k == "burn":
+                    prob = slots.get(op["slot"])
+                    if prob is None:
+                        continue
+                    mk = plan_slot_member(plan, op["slot"])
+                    st = structured[mk]
+                    nb = int(op["n"])
+                    ax = op["axis"] % st["N"]
+                    base = [l + (h - l) * 0.37 for l, h in zip(st["lower"], st["upper"])]
+                    for j in range(nb):
+                        p_ = list(base)
+                        p_[ax] = st["lower"][ax] + (st["upper"][ax] - st["lower"][ax]) * (j + 0.5) / nb
+                        if st["N"] > 1:
+                            p_[(ax + 1) % st["N"]] = st["lower"][(ax + 1) % st["N"]] + (st["upper"][(ax + 1) % st["N"]] - st["lower"][(ax + 1) % st["N"]]) * ((j * 7919) % nb + 0.5) / nb
+                        prob.Calculate(Point(np.array(p_, dtype=np.double), []), FunctionValue())
+                    rep.probes["burn_in_evaluations"] += nb
+                    events.append("burn %d" % nb)
                 elif k == "evaluate":
                     prob = slots.get(op["slot"])
                     if prob is None:
@@ -804,6 +846,8 @@ class C19(SmallSuite):
         if rng.random() < 0.15:
             # characteristics that differ in the 7th-9th significant digit, or are all tiny: "equal" must mean equal
             alphabet = rng.choice([[1.0, 1.00000005, 1.0000001, 0.99999995, 1.0000002], [1e-9, 2e-9, 1.5e-9, 0.0, 3e-9]])
+        elif rng.random() < 0.12:
+            alphabet = [float("-inf"), 0.0, 1.0, float("-inf"), 2.5]      # -inf is a legal characteristic (the solver's leftmost item has it)
         serial = [0]
 
         def key():
@@ -863,8 +907,13 @@ class C19(SmallSuite):
                 # an insertion the container has to reject (a coordinate no interval covers, no hint): whatever it does -
                 # raise, or append at the end - what it holds afterwards must still be exactly what was inserted
                 ops.append({"op": "insert_bad", "x": rng.choice([1.0, 1.0, 1.5, 7.0]), "g": key(), "l": key()})
-            else:
+            elif u < 0.985:
                 ops.append({"op": rng.choice(["count", "walk", "last"])})
+            else:
+                # traversal of this container while ANOTHER container is being used (lookups, a traversal, an insertion there)
+                ops.append({"op": "walk_while_other_is_used", "other_kind": rng.choice(["single", "dual"]),
+                            "do": [rng.choice(["find", "walk", "insert", "best"]) for _ in range(rng.randint(1, 3))],
+                            "q": float("%.4g" % rng.random())})
         return {"property": self.prop, "suite": "containers", "format": 1, "run_seed": run_seed, "kind": kind,
                 "maxlen": maxlen, "ops": ops}
 
@@ -1119,6 +1168,46 @@ class C19(SmallSuite):
                     return
             elif k in ("count", "walk"):
                 if not check_structure("op %d %s" % (i, k)):
+                    return
+            elif k == "walk_while_other_is_used":
+                rep.probes["traversals_while_another_container_is_used"] += 1
+                other = (SearchDataDualQueue if op["other_kind"] == "dual" else SearchData)(None, None)
+                ol = SearchDataItem(Point(np.array([0.0]), []), 0.0)
+                orr = SearchDataItem(Point(np.array([1.0]), []), 1.0)
+                om = SearchDataItem(Point(np.array([0.5]), []), 0.5)
+                for it_, g_ in ((ol, -1.0), (orr, 2.0), (om, 1.0)):
+                    it_.globalR = g_
+                    it_.localR = g_
+                other.InsertFirstDataItem(ol, orr)
+                other.InsertDataItem(om, orr)
+                seen = []
+                step = 0
+                for it in sd:
+                    seen.append(it)
+                    if len(seen) > len(items) + 4:
+                        break
+                    what = op["do"][step % len(op["do"])]
+                    step += 1
+                    if what == "find":
+                        other.FindDataItemByOneDimensionalPoint(op["q"])
+                    elif what == "walk":
+                        for _ in other:
+                            pass
+                    elif what == "best":
+                        other.GetDataItemWithMaxGlobalR()
+                    else:
+                        xn = 0.25 + 0.5 * op["q"] / (step + 1)
+                        ni_ = SearchDataItem(Point(np.array([xn]), []), xn)
+                        ni_.globalR = 0.5
+                        ni_.localR = 0.5
+                        try:
+                            other.InsertDataItem(ni_)
+                        except Exception:
+                            pass
+                ids = [id_of(it) for it in seen]
+                events.append("walk_while_other_is_used -> %r" % (ids,))
+                if ids != model.sorted_ids():
+                    bad("traversal", "op %d: a traversal during which another container was used yields items %r, expected %r" % (i, ids, model.sorted_ids()))
                     return
             elif k == "last":
                 last = sd.GetLastItem()
